@@ -1,28 +1,25 @@
 package orch
 
 import (
-	"bufio"
 	"bytes"
 	"encoding/json"
 	"fmt"
 	"go/parser"
 	"go/token"
 	"os"
-	"os/exec"
 	"path/filepath"
-	"regexp"
 	"sort"
-	"strconv"
 	"strings"
 	"sync"
 	"time"
 
+	"verif/internal/ptrace"
 	"verif/internal/simrt"
 	"verif/internal/workload"
 )
 
 // ---------------------------------------------------------------------
-// clisim: the real peg binary, run under strace fault injection (C18)
+// clisim: the real peg binary, run under ptrace system-call fault injection (C18)
 // ---------------------------------------------------------------------
 
 type CliScenario struct {
@@ -67,11 +64,11 @@ type cliObs struct {
 	ReadLens  []int // successful read() results on the source, in order, up to the first injected read
 	EOFInject bool
 	Calls     map[string]int // "src:read" → count etc. (fault-free trace)
-	LogTail   string
-}
+	}
 
 type injected struct {
 	Target, Syscall, Errno string
+	Index                  int
 }
 
 type cliRig struct {
@@ -79,7 +76,7 @@ type cliRig struct {
 	sc     *Scratch
 	peg    string
 	refgen string
-	strace string
+	self   string
 
 	refMu    sync.Mutex
 	refCache map[string]*refResp
@@ -118,7 +115,7 @@ func has(opts []string, o string) bool {
 type cliLayout struct {
 	dir       string
 	argv      []string // arguments after the program name
-	srcPath   string   // path strace is asked to watch for the source ("" if none)
+	srcPath   string   // path the injector watches for the source ("" if none)
 	dstPath   string   // path watched for the destination
 	outName   string   // the name Compile receives as file
 	stdinFile string
@@ -214,9 +211,17 @@ func (l *cliLayout) prepare(sc *CliScenario) error {
 	return nil
 }
 
-var reLine = regexp.MustCompile(`^(\d+)\s+(\w+)\((.*)\)\s+= (-?\d+)(?: (E[A-Z0-9]+))?.*?(\(INJECTED\))?\s*$`)
+var errnoNum = map[string]int{"EOF": 0, "ENOENT": 2, "EIO": 5, "EACCES": 13, "EMFILE": 24, "EFBIG": 27, "ENOSPC": 28, "EDQUOT": 122, "EROFS": 30, "ENOMEM": 12}
+var errnoName = func() map[int]string {
+	m := map[int]string{}
+	for k, v := range errnoNum {
+		m[v] = k
+	}
+	return m
+}()
 
-// run executes one case under strace and collects what happened.
+// run executes one case under the ptrace fault injector (a helper process:
+// `verif trace spec.json`) and collects what happened.
 func (rig *cliRig) run(c *CliCase, dir string, traceAll bool) (*cliObs, error) {
 	sc := &c.Sc
 	l := sc.layout(dir)
@@ -224,231 +229,55 @@ func (rig *cliRig) run(c *CliCase, dir string, traceAll bool) (*cliObs, error) {
 		return nil, infra("prepare: %v", err)
 	}
 	defer os.RemoveAll(dir)
-	logPath := filepath.Join(dir, "strace.log")
-	args := []string{"-f", "-qq", "-o", logPath}
-	pathOf := func(t string) string {
-		if t == "src" {
-			return l.srcPath
-		}
-		return l.dstPath
+	sp := ptrace.Spec{Argv: append([]string{rig.peg}, l.argv...), Dir: dir,
+		Env:    append(os.Environ(), "GOTRACEBACK=single"),
+		Stdin:  l.stdinFile,
+		Stdout: l.stdoutTo,
+		Stderr: filepath.Join(dir, "stderr.txt"),
+		Watch:  map[string]string{"dst": l.dstPath},
 	}
-	if traceAll {
-		args = append(args, "-e", "trace=openat,read,write,close")
-		if l.srcPath != "" {
-			args = append(args, "-P", l.srcPath)
-		}
-		args = append(args, "-P", l.dstPath)
-	} else {
-		var calls []string
-		paths := map[string]bool{}
-		for _, f := range c.Faults {
-			calls = append(calls, f.Syscall)
-			paths[pathOf(f.Target)] = true
-		}
-		// read lengths are needed to know what text the program received
-		calls = append(calls, "read")
-		args = append(args, "-e", "trace="+strings.Join(calls, ","))
-		var ps []string
-		for p := range paths {
-			ps = append(ps, p)
-		}
-		sort.Strings(ps)
-		for _, p := range ps {
-			args = append(args, "-P", p)
-		}
-		if len(ps) > 1 || !paths[l.srcPath] {
-			// reads are only interpreted when the source is watched
-		}
-		for _, f := range c.Faults {
-			when := strconv.Itoa(f.When)
-			if f.Persistent {
-				when += "+"
-			}
-			if f.Errno == "EOF" {
-				args = append(args, "-e", fmt.Sprintf("inject=%s:retval=0:when=%s", f.Syscall, when))
-			} else {
-				args = append(args, "-e", fmt.Sprintf("inject=%s:error=%s:when=%s", f.Syscall, f.Errno, when))
-			}
-		}
+	if l.srcPath != "" {
+		sp.Watch["src"] = l.srcPath
 	}
-	args = append(args, "--", rig.peg)
-	args = append(args, l.argv...)
-	cmd := exec.Command(rig.strace, args...)
-	cmd.Dir = dir
-	cmd.Env = append(os.Environ(), "GOTRACEBACK=single")
-	if l.stdinFile != "" {
-		f, err := os.Open(l.stdinFile)
-		if err != nil {
-			return nil, infra("stdin: %v", err)
+	for _, f := range c.Faults {
+		n, ok := errnoNum[f.Errno]
+		if !ok {
+			return nil, infra("unknown errno %q", f.Errno)
 		}
-		defer f.Close()
-		cmd.Stdin = f
-	} else {
-		cmd.Stdin = nil
+		sp.Faults = append(sp.Faults, ptrace.Fault{Target: f.Target, Syscall: f.Syscall, Errno: n, When: f.When, Persistent: f.Persistent})
 	}
-	so, err := os.Create(l.stdoutTo)
+	specPath := filepath.Join(dir, "spec.json")
+	sb, _ := json.Marshal(sp)
+	if err := os.WriteFile(specPath, sb, 0o644); err != nil {
+		return nil, infra("spec: %v", err)
+	}
+	so, se, exit, err := RunCmd(180*time.Second, dir, os.Environ(), nil, rig.self, "trace", specPath)
 	if err != nil {
-		return nil, infra("stdout: %v", err)
+		return nil, infra("tracer: %v", err)
 	}
-	cmd.Stdout = so
-	var se bytes.Buffer
-	cmd.Stderr = &se
-	if err := cmd.Start(); err != nil {
-		so.Close()
-		return nil, infra("cannot start strace: %v", err)
+	if exit != 0 {
+		return nil, infra("tracer exit %d: %s", exit, se)
 	}
-	done := make(chan error, 1)
-	go func() { done <- cmd.Wait() }()
-	select {
-	case <-done:
-	case <-time.After(120 * time.Second):
-		_ = cmd.Process.Kill()
-		<-done
-		so.Close()
-		return nil, infra("watchdog: peg under strace did not finish within 120s (%v)", l.argv)
+	var tr ptrace.Result
+	if err := json.Unmarshal(bytes.TrimSpace(so), &tr); err != nil {
+		return nil, infra("tracer answer: %v: %q", err, so)
 	}
-	so.Close()
-	obs := &cliObs{Exit: cmd.ProcessState.ExitCode(), Stderr: se.String(), Calls: map[string]int{}}
-	if strings.Contains(obs.Stderr, "strace: ") && (strings.Contains(obs.Stderr, "ptrace") || strings.Contains(obs.Stderr, "PTRACE")) {
-		return nil, infra("strace cannot trace here: %s", obs.Stderr)
+	obs := &cliObs{Exit: tr.Exit, Calls: tr.Calls, ReadLens: tr.ReadLens}
+	if b, err := os.ReadFile(sp.Stderr); err == nil {
+		obs.Stderr = string(b)
 	}
 	if st, err := os.Stat(l.dstPath); err == nil && st.Mode().IsRegular() {
 		if b, err := os.ReadFile(l.dstPath); err == nil {
 			obs.DestBytes, obs.DestExist = b, true
 		}
 	}
-	// parse the strace log
-	lf, err := os.Open(logPath)
-	if err != nil {
-		return nil, infra("strace log missing: %v (stderr %q)", err, obs.Stderr)
+	for _, in := range tr.Injected {
+		e := errnoName[in.Errno]
+		if in.Errno == 0 {
+			obs.EOFInject = true
+		}
+		obs.Injected = append(obs.Injected, injected{in.Target, in.Syscall, e, in.Index})
 	}
-	defer lf.Close()
-	fdOf := map[string]string{} // fd → target
-	if l.stdinFile != "" {
-		fdOf["0"] = "src"
-	}
-	if l.destIsStd {
-		fdOf["1"] = "dst"
-	}
-	scn := bufio.NewScanner(lf)
-	scn.Buffer(make([]byte, 1<<20), 1<<20)
-	readsOpen := true
-	unfinished := map[string]string{}
-	var tail []string
-	for scn.Scan() {
-		line := scn.Text()
-		if len(tail) < 6 {
-			tail = append(tail, line)
-		}
-		// join "<unfinished ...>" / "<... resumed>" pairs
-		if i := strings.Index(line, " <unfinished ...>"); i >= 0 {
-			pid := strings.Fields(line)[0]
-			unfinished[pid] = line[:i]
-			continue
-		}
-		if i := strings.Index(line, "<... "); i >= 0 {
-			pid := strings.Fields(line)[0]
-			if pre, ok := unfinished[pid]; ok {
-				j := strings.Index(line, " resumed>")
-				if j >= 0 {
-					line = pre + line[j+len(" resumed>"):]
-				}
-				delete(unfinished, pid)
-			}
-		}
-		m := reLine.FindStringSubmatch(line)
-		if m == nil {
-			continue
-		}
-		sys, argstr, ret, errno, inj := m[2], m[3], m[4], m[5], m[6] != ""
-		target := ""
-		switch sys {
-		case "openat":
-			switch {
-			case l.srcPath != "" && strings.Contains(argstr, strconv.Quote(l.srcPath)):
-				target = "src"
-			case strings.Contains(argstr, strconv.Quote(l.dstPath)):
-				target = "dst"
-			}
-			if target != "" && !strings.HasPrefix(ret, "-") {
-				fdOf[ret] = target
-			}
-		case "read", "write", "close":
-			fd := argstr
-			if i := strings.IndexByte(fd, ','); i >= 0 {
-				fd = fd[:i]
-			}
-			target = fdOf[fd]
-			if target == "" {
-				// files opened through a relative name are not shown by -P at
-				// openat time: the program reads only its source and writes
-				// only its destination
-				switch sys {
-				case "read":
-					target = "src"
-				case "write":
-					target = "dst"
-				case "close":
-					// only the watched paths appear in the log: if the planned
-					// faults on close name a single target, or a single path
-					// is watched, the line belongs to it
-					ts := map[string]bool{}
-					for _, f := range c.Faults {
-						if f.Syscall == "close" {
-							ts[f.Target] = true
-						}
-					}
-					if len(ts) == 0 {
-						for _, f := range c.Faults {
-							ts[f.Target] = true
-						}
-					}
-					if len(ts) == 1 {
-						for t := range ts {
-							target = t
-						}
-					}
-					if traceAll && target == "" {
-						// fault-free trace: the descriptor that is not the
-						// source's is the destination's
-						for ofd, t := range fdOf {
-							if t == "src" && ofd != fd {
-								target = "dst"
-							}
-						}
-					}
-				}
-				if target != "" {
-					fdOf[fd] = target
-				}
-			}
-			if sys == "close" {
-				delete(fdOf, fd)
-			}
-		}
-		if target == "" {
-			continue
-		}
-		obs.Calls[target+":"+sys]++
-		if inj {
-			e := errno
-			if e == "" {
-				e = "EOF"
-				obs.EOFInject = true
-			}
-			obs.Injected = append(obs.Injected, injected{target, sys, e})
-		}
-		if sys == "read" && target == "src" {
-			if inj {
-				readsOpen = false
-			} else if readsOpen {
-				if n, err := strconv.Atoi(ret); err == nil && n > 0 {
-					obs.ReadLens = append(obs.ReadLens, n)
-				}
-			}
-		}
-	}
-	obs.LogTail = strings.Join(tail, "\n")
 	return obs, nil
 }
 
@@ -733,11 +562,9 @@ func faultsFor(sc *CliScenario, calls map[string]int, r *simrt.SplitMix64, write
 	var out [][]CliFault
 	one := func(f CliFault) { out = append(out, []CliFault{f}) }
 	for _, t := range []string{"src", "dst"} {
-		if sc.Abs {
-			for k := 1; k <= calls[t+":openat"]; k++ {
-				for _, e := range []string{"ENOENT", "EACCES", "EIO", "EMFILE"} {
-					one(CliFault{Target: t, Syscall: "openat", Errno: e, When: k})
-				}
+		for k := 1; k <= calls[t+":openat"]; k++ {
+			for _, e := range []string{"ENOENT", "EACCES", "EIO", "EMFILE"} {
+				one(CliFault{Target: t, Syscall: "openat", Errno: e, When: k})
 			}
 		}
 		for k := 1; k <= calls[t+":close"]; k++ {
@@ -918,7 +745,7 @@ func CheckC18(e *Env) (int, error) {
 		Coverage: map[string]any{
 			"evaluations":         st.Runs,
 			"distinct_nontrivial": len(st.DistinctFault),
-			"rule": "one evaluation = one execution of the real peg binary in a fresh directory, judged by the executable model of the CLI contract; scenarios (grammar text x source x destination x options) are drawn from VERIF_SEED; for each scenario the fault-free trace is recorded and every openat/read/close position plus a seeded sample of write positions (always first three and last two) is injected with an errno or a premature EOF through strace; distinct_nontrivial counts distinct (scenario, planned fault, fault that actually fired) triples in which strace reports (INJECTED), i.e. the fault really hit an in-flight operation",
+			"rule": "one evaluation = one execution of the real peg binary in a fresh directory, judged by the executable model of the CLI contract; scenarios (grammar text x source x destination x options) are drawn from VERIF_SEED; for each scenario the fault-free trace is recorded and every openat/read/close position plus a seeded sample of write positions (always first three and last two) is injected with an errno or a premature EOF by the ptrace fault injector; distinct_nontrivial counts distinct (scenario, planned fault, fault that actually fired) triples in which the injector reports that the fault was applied to a call, i.e. it really hit an in-flight operation",
 			"samples":             st.Samples,
 			"scenarios":           len(scens),
 			"fault_free_runs":     st.FaultFree,
@@ -933,11 +760,11 @@ func CheckC18(e *Env) (int, error) {
 			"simulated_time":      "n/a — the system under test reads no clock",
 			"traces_validated_against_impl": st.Runs,
 			"components_real":     []string{"peg binary built from /repo's working tree (main.go, front end, tree, set)", "Linux kernel file system for ENOENT/EISDIR/ENOTDIR//dev/full"},
-			"components_stub":     []string{"none: faults are injected at the system-call boundary by strace (ptrace), the call is not executed and the chosen errno or a zero-length read is returned"},
+			"components_stub":     []string{"none: faults are injected at the system-call boundary by /verif/internal/ptrace (the call is skipped and the chosen errno or a zero-length read is returned); calls are counted globally per (path, system call), so a position is exact and replayable"},
 			"reference":           "library path (repository front end + tree.New + Compile) run in a separate process",
 		},
 		Assumptions: []string{
-			"strace -e inject returns the chosen errno without executing the call; the (INJECTED) marker in its log is trusted to tell which call was hit",
+			"the ptrace injector (internal/ptrace) skips the chosen call and returns the chosen errno; its fault-free trace is cross-checked against strace by `verif selftest tracer`",
 			"successful-but-lying writes (short or lost without error) are not injected: the program cannot detect them",
 			"EINTR/EAGAIN are not injected: the Go runtime retries them below the code under test",
 			"the reference bytes come from the same tree/front-end code (C18 is about main.go's contract, not about what Compile emits)",
@@ -959,15 +786,15 @@ func describeCli(c *CliCase, peg *string) string {
 }
 
 func newCliRig(e *Env, sc *Scratch) (*cliRig, error) {
-	strace, err := exec.LookPath("strace")
+	self, err := os.Executable()
 	if err != nil {
-		return nil, infra("strace not found")
+		return nil, infra("cannot find my own executable: %v", err)
 	}
 	repo := sc.Path("repo")
 	if err := CopyTree(e.RepoDir, repo); err != nil {
 		return nil, infra("copy %s: %v", e.RepoDir, err)
 	}
-	rig := &cliRig{env: e, sc: sc, peg: sc.Path("peg"), refgen: sc.Path("refgen"), strace: strace, refCache: map[string]*refResp{}}
+	rig := &cliRig{env: e, sc: sc, peg: sc.Path("peg"), refgen: sc.Path("refgen"), self: self, refCache: map[string]*refResp{}}
 	if err := e.BuildPeg(repo, rig.peg, false); err != nil {
 		return nil, err
 	}
